@@ -176,7 +176,7 @@ func execSQLWindowOnce(c Case) ([][]string, bool) {
 		sql += fmt.Sprintf(", ALLOWEDLATENESS='%s'", sqlDur(c, l))
 	}
 	sql += ")"
-	s := streamsql.New(streamsql.WithDiscardLog())
+	s := streamsql.New(presetOpt(), streamsql.WithDiscardLog())
 	defer s.Stop()
 	if err := s.Execute(sql); err != nil {
 		return [][]string{{"error", hx(err.Error())}}, true
